@@ -164,7 +164,7 @@ template<int D> void run_program(long id, view_program const& p) {
 		if(!fin) { os << ",\"obs_abort\":" << guard::last_json(); }
 	}
 	os << "}\n";
-	std::cout << os.str();
+	std::cout << os.str() << std::flush;
 }
 
 int main() {
